@@ -24,7 +24,8 @@ import (
 
 type c13Case struct {
 	ID      int         `json:"id"`
-	Svc     string      `json:"svc"` // root | app (strip) | raw (no strip) | fwd | fwdapp | tls
+	Svc     string      `json:"svc"`              // root | app (strip) | raw (no strip) | fwd | fwdapp | tls
+	Pfx     string      `json:"prefix,omitempty"` // the prefix of the service this request goes through (services with prefix stripping)
 	TLS     bool        `json:"tls"`
 	Method  string      `json:"method"`
 	Path    string      `json:"path"`  // as sent, including the service prefix
@@ -136,15 +137,19 @@ func c13Gen(rng *rand.Rand, idx, ncases int) c13Scenario {
 		rest := c13Path(rng)
 		switch c.Svc {
 		case "app", "fwdapp":
-			c.Path = "/app" + rest
+			c.Pfx = "/app"
+			if c.Svc == "app" && i%2 == 1 {
+				c.Pfx = "/app2/v2" // the service has two prefixes: what is stripped is the one this request matched
+			}
+			c.Path = c.Pfx + rest
 			if rng.IntN(10) == 0 {
-				c.Path = "/app" // the bare prefix
+				c.Path = c.Pfx // the bare prefix
 			}
 		case "raw":
 			c.Path = "/raw" + rest
 		default:
 			c.Path = rest
-			if strings.HasPrefix(rest, "/app/") || rest == "/app" || strings.HasPrefix(rest, "/raw/") || rest == "/raw" {
+			if strings.HasPrefix(rest, "/app/") || rest == "/app" || strings.HasPrefix(rest, "/raw/") || rest == "/raw" || strings.HasPrefix(rest, "/app2/") {
 				c.Path = "/x" + rest
 			}
 		}
@@ -548,7 +553,7 @@ func c13Run(t *testing.T, run *Run, sc c13Scenario) {
 		return true
 	}
 	if !dep("root", server.ServiceOptions{}, false) ||
-		!dep("app", server.ServiceOptions{PathPrefixes: []string{"/app"}, StripPrefix: true}, false) ||
+		!dep("app", server.ServiceOptions{PathPrefixes: []string{"/app", "/app2/v2"}, StripPrefix: true}, false) ||
 		!dep("raw", server.ServiceOptions{PathPrefixes: []string{"/raw"}, StripPrefix: false}, false) ||
 		!dep("fwd", server.ServiceOptions{Hosts: []string{"fwd.example"}}, true) ||
 		!dep("fwdapp", server.ServiceOptions{Hosts: []string{"fwd.example"}, PathPrefixes: []string{"/app"}, StripPrefix: true}, true) ||
@@ -669,7 +674,7 @@ func c13Run(t *testing.T, run *Run, sc c13Scenario) {
 		gotPath, gotQuery, _ := strings.Cut(f[1], "?")
 		wantPath := cs.Path
 		if cs.Svc == "app" || cs.Svc == "fwdapp" {
-			wantPath = strings.TrimPrefix(cs.Path, "/app")
+			wantPath = strings.TrimPrefix(cs.Path, cs.Pfx)
 			if wantPath == "" {
 				wantPath = "/"
 			}
